@@ -57,7 +57,7 @@ def factory_task(ck, task):
     diff = [p for p in sorted(set(a) | set(b)) if show(a.get(p)) != show(b.get(p))]
     # object ids differ between the two runs; compare printed terms with ids normalised
     import re
-    norm = lambda t: re.sub(r"#\d+", "#", show(t)) if t is not None else None
+    norm = lambda t: re.sub(r"undef\(\d+,", "undef(#,", re.sub(r"#\d+", "#", show(t))) if t is not None else None
     diff = [p for p in sorted(set(a) | set(b)) if norm(a.get(p)) != norm(b.get(p))]
     ck.verdict("D-TABLE", "PduFactory.from_raw", f"result has exactly the state {cls.split('.')[-1]}.unpack produces ({tag})",
                [f"{p}: {norm(a.get(p))} vs {norm(b.get(p))}"[:160] for p in diff[:3]], f"{len(a)} cells identical")
